@@ -13,10 +13,16 @@ func (ex *Exec) inRange(b *Term, lo, hi uint64) bool {
 
 // decodeRuneSym decodes the first rune of s (len(s) >= 1): (rune as a 32-bit term, size).
 func (ex *Exec) decodeRuneSym(s Str) (*Term, int) {
-	bad := func() (*Term, int) { return Const(32, 0xFFFD), 1 }
+	r, n, _ := ex.decodeRuneSymOK(s)
+	return r, n
+}
+
+// decodeRuneSymOK also tells whether the sequence was well-formed.
+func (ex *Exec) decodeRuneSymOK(s Str) (*Term, int, bool) {
+	bad := func() (*Term, int, bool) { return Const(32, 0xFFFD), 1, false }
 	b0 := s[0]
 	if ex.branch(Cmp(OpULt, b0, Const(8, 0x80))) {
-		return Resize(b0, 32, false), 1
+		return Resize(b0, 32, false), 1, true
 	}
 	cont := func(i int, lo, hi uint64) bool { return i < len(s) && ex.inRange(s[i], lo, hi) }
 	low6 := func(b *Term) *Term { return Bin(OpBAnd, Resize(b, 32, false), Const(32, 0x3F)) }
@@ -27,7 +33,7 @@ func (ex *Exec) decodeRuneSym(s Str) (*Term, int) {
 			return bad()
 		}
 		r := Bin(OpBOr, shl(Bin(OpBAnd, Resize(b0, 32, false), Const(32, 0x1F)), 6), low6(s[1]))
-		return r, 2
+		return r, 2, true
 	case ex.inRange(b0, 0xE0, 0xEF):
 		lo, hi := uint64(0x80), uint64(0xBF)
 		if ex.branch(Eq(b0, Const(8, 0xE0))) {
@@ -39,7 +45,7 @@ func (ex *Exec) decodeRuneSym(s Str) (*Term, int) {
 			return bad()
 		}
 		r := Bin(OpBOr, Bin(OpBOr, shl(Bin(OpBAnd, Resize(b0, 32, false), Const(32, 0x0F)), 12), shl(low6(s[1]), 6)), low6(s[2]))
-		return r, 3
+		return r, 3, true
 	case ex.inRange(b0, 0xF0, 0xF4):
 		lo, hi := uint64(0x80), uint64(0xBF)
 		if ex.branch(Eq(b0, Const(8, 0xF0))) {
@@ -51,7 +57,7 @@ func (ex *Exec) decodeRuneSym(s Str) (*Term, int) {
 			return bad()
 		}
 		r := Bin(OpBOr, Bin(OpBOr, Bin(OpBOr, shl(Bin(OpBAnd, Resize(b0, 32, false), Const(32, 0x07)), 18), shl(low6(s[1]), 12)), shl(low6(s[2]), 6)), low6(s[3]))
-		return r, 4
+		return r, 4, true
 	}
 	return bad()
 }
@@ -77,4 +83,76 @@ func (ex *Exec) encodeRuneSym(r *Term) Str {
 		return Str{byteOf(Bin(OpBOr, shr(18), Const(32, 0xF0))), low6(shr(12)), low6(shr(6)), low6(r)}
 	}
 	return mkStr("\uFFFD") // negative or above the Unicode range
+}
+
+// ---- unicode/utf8 entry points on symbolic input ----
+
+func utf8Bytes(v Val) Str {
+	switch x := v.(type) {
+	case Str:
+		return x
+	case SliceV:
+		return toStr(x)
+	}
+	return nil
+}
+
+func inUTF8Decode(ex *Exec, fr *frame, args []Val) Val {
+	s := utf8Bytes(args[0])
+	if len(s) == 0 {
+		return Tuple{Const(32, 0xFFFD), Const(64, 0)}
+	}
+	r, n := ex.decodeRuneSym(s)
+	return Tuple{r, Const(64, uint64(n))}
+}
+
+func inUTF8Valid(ex *Exec, fr *frame, args []Val) Val {
+	s := utf8Bytes(args[0])
+	for i := 0; i < len(s); {
+		_, n, ok := ex.decodeRuneSymOK(s[i:])
+		if !ok {
+			return False
+		}
+		i += n
+	}
+	return True
+}
+
+func inUTF8RuneCount(ex *Exec, fr *frame, args []Val) Val {
+	s := utf8Bytes(args[0])
+	c := 0
+	for i := 0; i < len(s); c++ {
+		_, n := ex.decodeRuneSym(s[i:])
+		i += n
+	}
+	return Const(64, uint64(c))
+}
+
+func inUTF8AppendRune(ex *Exec, fr *frame, args []Val) Val {
+	p := args[0].(SliceV)
+	enc := ex.encodeRuneSym(args[1].(*Term))
+	cells := append([]Val(nil), p.A...)
+	for _, b := range enc {
+		cells = append(cells, b)
+	}
+	return SliceV{A: cells}
+}
+
+func inUTF8RuneLen(ex *Exec, fr *frame, args []Val) Val {
+	r := Resize(args[0].(*Term), 32, true)
+	ult := func(v uint64) bool { return ex.branch(Cmp(OpULt, r, Const(32, v))) }
+	switch {
+	case ult(0x80):
+		return Const(64, 1)
+	case ult(0x800):
+		return Const(64, 2)
+	case ult(0x10000):
+		if !ult(0xD800) && ult(0xE000) {
+			return Const(64, ^uint64(0))
+		}
+		return Const(64, 3)
+	case ult(0x110000):
+		return Const(64, 4)
+	}
+	return Const(64, ^uint64(0))
 }
